@@ -82,6 +82,14 @@ def concretise(cmd: tuple, counter: list) -> tuple[bytes, str]:
         return line, 'other'
     if k == 'idle':
         return b'IDLE', 'idle'
+    if k == 'status':
+        return b'STATUS ' + cmd[1].encode() + b' (MESSAGES UIDNEXT UIDVALIDITY)', 'other'
+    if k == 'create':
+        return b'CREATE ' + cmd[1].encode(), 'other'
+    if k == 'delete':
+        return b'DELETE ' + cmd[1].encode(), 'other'
+    if k == 'rename':
+        return b'RENAME ' + cmd[1].encode() + b' ' + cmd[2].encode(), 'other'
     raise ValueError(cmd)
 
 
@@ -102,6 +110,11 @@ class SyncRun:
         self.errors: list[str] = []       # C07-style malformed output etc.
         self.tags: dict[str, int] = {}
         self.acks: list[dict] = []        # tagged results with codes (C04/C14)
+        self._objs: dict = {}
+        self._cmd_arrivals: dict = {}
+        self._validities: dict = {}
+        self._cids: dict = {}
+        self.log_state = False
         w = self.w
         z = w.connect('z')
         z.take()
@@ -126,7 +139,8 @@ class SyncRun:
             self.tags[s] = 0
         if controlled:
             w.ck.controlled.update(self.sessions)
-        self._known_uids = self.store_uids()
+        self._known_uids = {}
+        self.collect('z')
 
     # -- glass box ---------------------------------------------------------------
 
@@ -141,6 +155,51 @@ class SyncRun:
         st = self.w.conns[s].state
         sel = st._selected if st is not None else None
         return None if sel is None else sel.lookup
+
+    def _data(self, mbx: str):
+        mset = self.w.mailbox_set()
+        if mset is None:
+            return None
+        return mset._inbox if mbx.upper() == 'INBOX' else mset._set.get(mbx)
+
+    def obj_of(self, mbx: str) -> str:
+        """stable identity of the mailbox object behind a name ('' if none)"""
+        data = self._data(mbx)
+        if data is None:
+            return ''
+        key = id(data)
+        if key not in self._objs:
+            self._objs[key] = (f'o{len(self._objs) + 1}', data)   # keeps the object alive
+        return self._objs[key][0]
+
+    def validity_idx(self, v: int) -> int:
+        if v not in self._validities:
+            self._validities[v] = len(self._validities) + 1
+        return self._validities[v]
+
+    def cid_of(self, msg) -> int:
+        c = msg._content
+        key = id(c)
+        hit = self._cids.get(key)
+        if hit is None or hit[1] is not c:
+            import re as _re
+            m = _re.search(rb'Subject: m(\d+)', bytes(c.header))
+            hit = (int(m.group(1)) if m else 0, c)
+            self._cids[key] = hit
+        return hit[0]
+
+    def state_event(self) -> None:
+        """every mailbox: [obj, uid, cid, deleted?] for each message (glass box)"""
+        mset = self.w.mailbox_set()
+        rows = []
+        names = {'INBOX': mset._inbox}
+        names.update(mset._set)
+        for name, data in sorted(names.items()):
+            o = self.obj_of(name)
+            for u, m in sorted(data._messages.items()):
+                rows.append([o, u, self.cid_of(m),
+                             any(bytes(f) == b'\\Deleted' for f in m.permanent_flags)])
+        self.events.append({'e': 'state', 'rows': rows})
 
     def dump(self, mbx: str) -> None:
         """glass-box dump of a mailbox: uids, permanent flags, stored recent bits"""
@@ -190,12 +249,36 @@ class SyncRun:
         return maildirsrv.store_uids(self.w)
 
     def collect(self, by: str = '') -> None:
-        now = self.store_uids()
-        for m, uids in now.items():
-            new = uids - self._known_uids.get(m, set())
-            if new:
-                self.events.append({'e': 'arrive', 'dest': m, 'uids': sorted(new), 'by': by})
-        self._known_uids = now
+        if self.backend == 'dict':
+            mset = self.w.mailbox_set()
+            names = {}
+            if mset is not None:
+                names['INBOX'] = mset._inbox
+                names.update(mset._set)
+            current = {}
+            for name, data in names.items():
+                current[self.obj_of(name)] = name
+            # every mailbox object ever seen, including ones no name points to any more
+            for o, data in list(self._objs.values()):
+                uids = set(data._messages)
+                new = uids - self._known_uids.get(o, set())
+                if new:
+                    ev = {'e': 'arrive', 'dest': current.get(o, ''), 'obj': o,
+                          'uids': sorted(new), 'by': by,
+                          'cids': [self.cid_of(data._messages[u]) for u in sorted(new)]}
+                    self._cmd_arrivals.setdefault(by, []).append((o, data))
+                    self.events.append(ev)
+                self._known_uids.setdefault(o, set()).update(uids)
+        else:
+            now = self.store_uids()
+            for m, uids in now.items():
+                new = uids - self._known_uids.get(m, set())
+                if new:
+                    self.events.append({'e': 'arrive', 'dest': m, 'obj': m,
+                                        'uids': sorted(new), 'by': by})
+                self._known_uids.setdefault(m, set()).update(uids)
+        if self.log_state:
+            self.state_event()
         for s in self.sessions:
             c = self.w.conns[s]
             data = bytes(c.writer.out)
@@ -244,7 +327,19 @@ class SyncRun:
             elif r.cond == b'BYE':
                 ev.append({'e': 'bye', 's': s, 'text': r.text.decode('latin1')})
             elif r.cond == b'OK' and r.code and r.code[0] == b'COPYUID':
-                ev.append({'e': 'copyuid', 's': s, 'args': r.code[1].decode()})
+                self._copyuid(s, r.code[1].decode())
+            elif r.cond == b'OK' and r.code and r.code[0] == b'UIDNEXT':
+                inf = self.inflight[s]
+                if inf and inf.get('target') and self.obj_of(inf['cmd'][1]) == inf['target'][0]:
+                    ev.append({'e': 'uidnext', 's': s, 'obj': inf['target'][0],
+                               'n': int(r.code[1]), 'maxstart': inf['target'][1]})
+            elif r.name == b'STATUS':
+                inf = self.inflight[s]
+                st = r.data[1]
+                if inf and inf.get('target') and b'UIDNEXT' in st \
+                        and self.obj_of(inf['cmd'][1]) == inf['target'][0]:
+                    ev.append({'e': 'uidnext', 's': s, 'obj': inf['target'][0],
+                               'n': st[b'UIDNEXT'], 'maxstart': inf['target'][1]})
             return
         # tagged
         inf = self.inflight[s]
@@ -259,11 +354,47 @@ class SyncRun:
             ev.append({'e': 'unsilent', 's': s, 'uids': inf['addressed']})
         if cmd[0] == 'idle' and inf.get('ended_by'):
             ev.append({'e': 'idleend', 's': s, 'input': inf['ended_by'], 'cond': cond})
+        if code == 'COPYUID':
+            self._copyuid(s, r.code[1].decode())
+        if code == 'APPENDUID' and inf:
+            v, _, us = r.code[1].decode().partition(' ')
+            dest = inf['cmd'][1]
+            o, realv = self._delivered_to(s, dest)
+            ev.append({'e': 'appenduid', 's': s, 'obj': o,
+                       'v': self.validity_idx(int(v)), 'realv': realv,
+                       'uids': _expand(us), 'cids': inf.get('cids', [])})
         ev.append({'e': 'tagged', 's': s, 'cond': cond, 'code': code,
                    'codeargs': r.code[1].decode() if r.code else '',
                    'selected': view is not None, 'view': view or [],
                    'ro': self.selected_ro(s), 'wasro': bool(inf and inf.get('wasro')),
                    'cmd': list(map(_j, cmd)), 'mbx': self.selected_name(s) or ''})
+
+    def _delivered_to(self, s: str, name: str):
+        """(object id, validity index) of the mailbox object this session's command in
+        flight actually delivered into (it may have been renamed meanwhile); falls back
+        to the object now behind `name`."""
+        arr = self._cmd_arrivals.get(s) or []
+        if arr and all(a[0] == arr[0][0] for a in arr):
+            return arr[0][0], self.validity_idx(arr[0][1]._uid_validity)
+        if arr:
+            return '', 0           # delivered into several objects: nothing is demanded
+        return self.obj_of(name), self._real_validity(name)
+
+    def _real_validity(self, mbx: str) -> int:
+        data = self._data(mbx)
+        return self.validity_idx(data._uid_validity) if data is not None else 0
+
+    def _copyuid(self, s: str, args: str) -> None:
+        inf = self.inflight[s]
+        v, src, dst = args.split(' ')
+        dest = inf['cmd'][3] if inf else ''
+        o, realv = self._delivered_to(s, dest)
+        self.events.append({'e': 'copyuid', 's': s, 'v': self.validity_idx(int(v)),
+                            'realv': realv,
+                            'srcobj': inf.get('srcobj', '') if inf else '',
+                            'dstobj': o,
+                            'src': _expand(src), 'dst': _expand(dst),
+                            'move': bool(inf and inf['cmd'][0] == 'move')})
 
     # -- driver actions ------------------------------------------------------------
 
@@ -288,8 +419,22 @@ class SyncRun:
             addressed = self._addressed(view, cmd[1], cmd[2])
         self.tags[s] += 1
         tag = f'{s}{self.tags[s]}'.encode()
+        self._cmd_arrivals[s] = []
+        target = None
+        if cmd[0] in ('select', 'examine', 'status') and self.backend == 'dict':
+            data = self._data(cmd[1])
+            if data is not None:
+                target = (self.obj_of(cmd[1]), max(data._messages, default=0))
+        cids = None
+        if cmd[0] == 'append':
+            cids = list(range(self.msgno[0] - cmd[2] + 1, self.msgno[0] + 1))
+        srcobj = ''
+        if cmd[0] in ('copy', 'move') and self.backend == 'dict':
+            nm = self.selected_name(s)
+            srcobj = self.obj_of(nm) if nm else ''
         self.inflight[s] = {'cmd': cmd, 'addressed': addressed, 'tag': tag,
-                            'wasro': self.selected_ro(s)}
+                            'wasro': self.selected_ro(s), 'target': target, 'cids': cids,
+                            'srcobj': srcobj}
         self.events.append({'e': 'start', 's': s, 'k': kind, 'selected': view is not None,
                             'view': view or [], 'cmd': list(map(_j, cmd)),
                             'mbx': self.selected_name(s) or ''})
@@ -417,6 +562,18 @@ class SyncRun:
 
     def close(self) -> None:
         self.w.close()
+
+
+def _expand(uset: str) -> list:
+    out = []
+    for part in uset.split(','):
+        a, _, b = part.partition(':')
+        if b:
+            lo, hi = int(a), int(b)
+            out.extend(range(min(lo, hi), max(lo, hi) + 1))
+        else:
+            out.append(int(a))
+    return out
 
 
 def _j(x):
